@@ -24,7 +24,7 @@ def rand_event(rng, pops, allow_discretised=True, allow_split=True):
     if allow_split and len(pops) > 1:
         kinds.append('PopulationSplit')
     if allow_discretised:
-        kinds += ['DiscretizedRateChange', 'DiscretizedRateChanges']
+        kinds += ['DiscretizedRateChange', 'DiscretizedRateChanges', 'ExponentialPopSizeChanges', 'ExponentialRateChanges']
     if len(pops) == 1:
         kinds = [k for k in kinds if 'Migration' not in k]
     k = rng.choice(kinds)
@@ -50,6 +50,16 @@ def rand_event(rng, pops, allow_discretised=True, allow_split=True):
         return e
     if k == 'PopulationSplit':
         return {'type': k, 'time': rtime(rng, False), 'derived': p, 'ancestral': q, 'multiplier': rng.choice([100, 64])}
+    if k in ('ExponentialPopSizeChanges', 'ExponentialRateChanges'):
+        keys = rng.sample(pops, rng.randrange(1, len(pops) + 1))
+        if k == 'ExponentialRateChanges' and len(pops) > 1 and rng.random() < 0.5:
+            keys = [f'{p}>{q}', f'{q}>{p}']
+        name = 'initial_size' if k == 'ExponentialPopSizeChanges' else 'initial_rate'
+        per_key = rng.random() < 0.6
+        return {'type': k, name: {x: rsize(rng) for x in keys},
+                'growth_rate': {x: rng.choice([-0.5, 0.25, 0.5, 1.0]) for x in keys} if per_key else rng.choice([0.25, 0.5]),
+                'start_time': {x: rng.choice([0.0, 0.25, 0.5]) for x in keys} if per_key else rng.choice([0.0, 0.25]),
+                'end_time': rng.choice([None, 2.0, 1.5]), 'step_size': rng.choice([0.25, 0.5])}
     pts = sorted({rtime(rng) for _ in range(3)} | {0.0, 4.0})
     points = [[t, rsize(rng)] for t in pts]
     st = rng.choice([0.0, 0.125, 0.25, 0.5, 1.0])
@@ -201,7 +211,7 @@ def run(res, replay=None):
             r = impl[id(c)]
             spec = c['spec']
             meps = [demog.parse_epoch(t) for t in C.parse_term(v)]
-            discretised = has(spec, ('DiscretizedRateChange', 'DiscretizedRateChanges'))
+            discretised = has(spec, ('DiscretizedRateChange', 'DiscretizedRateChanges', 'ExponentialPopSizeChanges', 'ExponentialRateChanges'))
             split = has(spec, ('PopulationSplit',))
             n_disc += discretised
             n_split += split
